@@ -210,6 +210,28 @@ def r4(ctx):
         ms("set"): "stamps the record being stored (C05.R2)",
         ms("flush") + "::{closure#0}": "delayed flush rewrite (checked below)",
     }
+    import callgraph
+
+    cg = callgraph.get(ctx)
+    rev = {}
+    for src, tgts in cg.edges.items():
+        for t in tgts:
+            rev.setdefault(t, set()).add(src)
+
+    def only_from_set_or_flush(path, seen=None):
+        """a private helper is as good as its callers: every call chain into it starts in MemoryStore::set / flush"""
+        seen = seen or set()
+        if path in seen:
+            return True
+        seen.add(path)
+        body = f.bodies.get(path)
+        if body is not None and (path in allowed_writers or (body.root or path) in (ms("set"), ms("flush"))):
+            return True
+        callers = rev.get(path, ())
+        if not callers or (body is not None and (body.j.get("vis") or "") == "Public"):
+            return False
+        return all(only_from_set_or_flush(c, seen) for c in callers)
+
     n = 0
     for b in f.bodies.values():
         if b.crate != "memcrs.lib":
@@ -225,7 +247,7 @@ def r4(ctx):
                     n += 1
                     root = b.root or b.path
                     key = "field-write:%s:%s" % (b.path, fl[-1])
-                    rep.check(b.path in allowed_writers or root in (ms("set"), ms("flush")), key, "write of %s in %s (%s)" % (fl[-1], b.path, allowed_writers.get(b.path, "store layer")), "%s of a record is written in %s — outside MemoryStore::set / flush nothing may change an item's expiry" % (fl[-1], b.path), loc_s(s.span))
+                    rep.check(only_from_set_or_flush(b.path), key, "write of %s in %s (%s)" % (fl[-1], b.path, allowed_writers.get(b.path, "store layer")), "%s of a record is written in %s — outside MemoryStore::set / flush nothing may change an item's expiry" % (fl[-1], b.path), loc_s(s.span))
     # aggregates of CacheMetaData outside its constructor
     for b in f.bodies.values():
         if b.crate != "memcrs.lib" or "fmt::Debug" in b.path or "Clone" in b.path:
